@@ -4,6 +4,10 @@ Spec -> code: every edge of the TLC state graph (label = action with arguments) 
 object with real Host objects, reached through a shortest clean prefix; after the edge's call two query plans
 and distance() of every known host are taken and checked against the constraints exported in the spec
 post-state (`exp`).  Populate edges are replayed with every order of the known hosts.
+Calls reach the policy through the real cassandra.cluster.ProfileManager; Relocate is the real
+ControlConnection._update_location_info (so the order on_down / set_location_info / on_up is the code's, not the
+harness's).  cluster_histories() additionally runs the policy inside a real Cluster over simulated nodes: start-up
+and later relocations are learnt by the real _refresh_node_list_and_token_map from system.local / system.peers.
 Code -> spec: random walks record, per call, what the real object answered; TLC validates the recorded
 histories against spec/Trace_LBP.tla (same PlanOK / DistOK predicates, in TLA+).  The Python check below and
 the TLA+ predicates are two implementations of the same constraints; checks/c21.py requires them to agree on
